@@ -9,9 +9,6 @@ pub type Iv<B> = Array<u8, <B as IvSizeUser>::IvSize>;
 
 // `trait InnerIvInit` is extracted from the pinned crypto-common crate (contracts/dep_common.py): its default
 // `inner_iv_slice_init` (IV slice of the wrong length -> Err) is verified text
-pub trait InnerInit: InnerUser + Sized {
-    fn inner_init(cipher: Self::Inner) -> Self;
-}
 pub trait IvState: IvSizeUser {
     fn iv_state(&self) -> Iv<Self>;
 }
@@ -98,3 +95,21 @@ pub trait BlockCipherDecrypt: BlockSizeUser + Sized {
         ensures final(out_block)@ == self.dec_fn()(in_block@);
 }
 
+
+// ---- key-based construction.  `KeyInit` is the (block) cipher's own constructor: ASSUMED, with an abstract relation
+// `key_init_post(key, r)` = "r is the cipher keyed with `key`".  `KeyIvInit` and its blanket impl for the modes are
+// extracted from crypto-common (contracts/dep_common.py).
+pub trait KeySizeUser { type KeySize: ArraySize; }
+pub type Key<B> = Array<u8, <B as KeySizeUser>::KeySize>;
+#[derive(Debug)]
+pub struct WeakKeyError;
+pub trait KeyInit: KeySizeUser + Sized {
+    spec fn key_init_post(key: Key<Self>, r: Self) -> bool;
+    fn new(key: &Key<Self>) -> (r: Self)
+        ensures Self::key_init_post(*key, r);
+    fn weak_key_test(key: &Key<Self>) -> (r: Result<(), WeakKeyError>);
+    fn new_from_slice(key: &[u8]) -> (r: Result<Self, InvalidLength>)
+        ensures
+            r is Ok <==> key@.len() == <Self as KeySizeUser>::KeySize::USIZE,
+            r is Ok ==> exists |k: Key<Self>| k@ == key@ && Self::key_init_post(k, r->Ok_0);
+}
